@@ -218,6 +218,84 @@ def _sleep(eng, st, f, args, kwargs, line):
 OPAQUE_CALL['SleepFn'] = _sleep
 
 
+# ---- threading.Event / asyncio.Event (driver objects) --------------------------------------------
+def _new_event(eng, st, f, args, kwargs, line):
+    s2 = st.copy()
+    e = z3.Int(eng.name('event'))
+    s2.pc.append(e >= 1)
+    yield s2, V(Opaque('Event'), e)
+
+
+OPAQUE_CALL['EventClass'] = _new_event
+
+
+def _ev_is_set(eng, st, recv, args, kwargs, line):
+    b = z3.Bool(eng.name('is_set'))
+    eng.inputs[str(b)] = b
+    yield st, vbool(b)
+
+
+def _ev_wait(eng, st, recv, args, kwargs, line):
+    """Event.wait(timeout): True (the event was set, within the time-out) or False after
+    exactly the time-out (ideal timers). The requested time-out is added to the ghost `slept`
+    (total sleep requested by the monitor) when that ghost is tracked."""
+    t = kwargs.get('timeout') or (args[0] if args else None)
+    if eng.cur_is_async and t is None:
+        # asyncio.Event.wait() is a coroutine: awaited bare it returns True once the event is
+        # set; under asyncio.wait_for it returns True in time or TimeoutError is raised
+        def run(eng2, st2, timeout, line2):
+            kw = {} if timeout is None else {'timeout': timeout}
+            for s3, r in _ev_wait_sync(eng2, st2, recv, (), kw, line2):
+                b3 = z3.simplify(r.t)
+                sa = eng2.assume(s3, r.t)
+                if sa is not None:
+                    yield sa, vbool(True)
+                if timeout is not None:
+                    sb = eng2.assume(s3, z3.Not(r.t))
+                    if sb is not None:
+                        yield sb, R('TimeoutError', line2)
+        yield st, V(FN, ('corolib', run))
+        return
+    yield from _ev_wait_sync(eng, st, recv, args, kwargs, line)
+
+
+def _ev_wait_sync(eng, st, recv, args, kwargs, line):
+    t = kwargs.get('timeout') or (args[0] if args else None)
+    s2 = st.copy()
+    b = z3.Bool(eng.name('ev_set'))
+    eng.inputs[str(b)] = b
+    if t is not None and 'now' in s2.ghost:
+        dt = eng.coerce(t, REAL).t
+        now = s2.ghost['now']
+        n2 = z3.Real(eng.name('now'))
+        s2.pc.append(n2 >= now.t)
+        s2.pc.append(n2 <= now.t + dt)
+        s2.pc.append(z3.Implies(z3.Not(b), n2 == now.t + dt))
+        s2.ghost['now'] = V(REAL, n2)
+        eng._wrote(s2, ('ghost', 'now'))
+        if 'slept' in s2.ghost:
+            s2.ghost['slept'] = V(REAL, s2.ghost['slept'].t + dt)
+            eng._wrote(s2, ('ghost', 'slept'))
+    else:
+        advance_clock(eng, s2, None)
+    yield s2, vbool(b)
+
+
+@libfn('asyncio.Event')
+def _asyncio_event(eng, st, args, kwargs, line):
+    yield from _new_event(eng, st, None, args, kwargs, line)
+
+
+@libfn('asyncio.get_running_loop')
+def _running_loop(eng, st, args, kwargs, line):
+    yield st, eng.fresh(Opaque('Loop'), 'loop', st)
+
+
+LIBM[('opaque:Loop', 'is_closed')] = _ev_is_set       # an unknown bool
+LIBM[('opaque:Event', 'is_set')] = _ev_is_set
+LIBM[('opaque:Event', 'wait')] = _ev_wait
+
+
 @libfn('asyncio.sleep')
 def _asleep(eng, st, args, kwargs, line):
     yield from _sleep(eng, st, None, args, kwargs, line)
